@@ -579,6 +579,157 @@ QUERY_ENTRIES_EMPTY = [
     "conducting.WorkflowState.has_canceled_tasks",
 ]
 
+# ====================================================================== memo attributes
+def _is_empty_value(v):
+    if v is None:
+        return False
+    if isinstance(v, ast.Constant):
+        return True  # a constant does not derive from any state: None, 0, -1, False ...
+    if isinstance(v, ast.UnaryOp) and isinstance(v.operand, ast.Constant):
+        return True
+    if isinstance(v, (ast.Dict, ast.List, ast.Set, ast.Tuple)) and not (
+            getattr(v, "keys", None) or getattr(v, "elts", None)):
+        return True
+    if isinstance(v, ast.Call) and isinstance(v.func, ast.Name) and v.func.id in (
+            "dict", "set", "list", "frozenset", "tuple") and not v.args and not v.keywords:
+        return True
+    return False
+
+
+def memo_attrs(ctx):
+    """{(root, attr): problem or None} for the run-time attributes of the state / conductor
+    that are *derived caches*: not persisted, empty after construction (so a restored object
+    starts without them), and filled from other attributes.  A memo is coherent when every
+    function that writes one of the attributes it is computed from (other than by appending:
+    entries of append-only lists never change) also resets the memo; the problem text names
+    the writer that does not.  Coherent memos are not state: serialisation need not carry
+    them, a query may fill them, a rejected request may have filled them."""
+    def build():
+        prog = ctx.prog
+        out = {}
+        allef = effects_of(ctx)
+        for root, cname in (("WS", "WorkflowState"), ("WC", "WorkflowConductor")):
+            cls = prog.cls("conducting." + cname)
+            ser = prog.lookup_method(cls, "serialize")
+            if ser is None:
+                continue
+            ser_reads = _transitive_self_reads(prog, cls, ser)
+            attrs = {e.path[1] for e in allef if e.path[0] == root and len(e.path) >= 2}
+            attrs -= ser_reads | {"conductor", "_workflow_state"}
+            for attr in sorted(attrs):
+                effs = [e for e in allef if e.path[:2] == (root, attr)]
+                empties = [e for e in effs if e.op == "setattr" and len(e.path) == 2
+                           and _is_empty_value(assigned_value(e))]
+                if not any(e.func.name == "__init__" for e in empties):
+                    continue
+                fillers = {}
+                for e in effs:
+                    if e in empties or e.func.name == "__init__":
+                        continue
+                    if e.op in ("pop", "clear", "discard", "remove", "popitem", "delitem"):
+                        continue
+                    fillers[e.func.qualname] = e.func
+                sources = set()
+                fill_effs = [e for e in effs if e not in empties and e.func.name != "__init__"
+                             and e.op not in ("pop", "clear", "discard", "remove", "popitem",
+                                              "delitem")]
+                for e in fill_effs:
+                    sources |= _value_sources(prog, e)
+                sources = {s_ for s_ in sources if s_ != (root, attr)
+                           and not s_[1].startswith(attr) and not attr.startswith(s_[1] + "_")}
+                resets = [e for e in effs if e in empties or e.op in ("clear",)]
+                reset_funcs = set()
+                for e in resets:
+                    reset_funcs |= set(e.chain())
+                problem = None
+                for r_, x in sorted(sources):
+                    wr = [e for e in allef if e.path[:2] == (r_, x)
+                          and e.func.name not in ("__init__", "deserialize", "restore")
+                          and e.func.module.short in ("conducting", "machines")
+                          and not is_construction(e)]
+                    if not wr or all(e.op == "append" for e in wr):
+                        continue
+                    lazy = prog.lookup_method(prog.cls("conducting.WorkflowConductor"),
+                                              "workflow_state")
+                    for e in wr:
+                        if e.func.qualname in reset_funcs or e.func.qualname in fillers:
+                            continue
+                        # lazy initialisation of the source itself (if not self._x: self._x = ..)
+                        if any(q == e.func.qualname and a_[0] == "falsy" and str(a_[1]).endswith(
+                                "." + x) for q, a_ in e.guards):
+                            continue
+                        if lazy is not None and e.func is lazy:
+                            continue
+                        problem = "%s.%s is computed from %s.%s, which %s writes (%s) without " \
+                                  "resetting it" % (cname, attr, "WorkflowState" if r_ == "WS"
+                                                    else "WorkflowConductor", x, e.func.qualname,
+                                                    e.op)
+                        break
+                    if problem:
+                        break
+                out[(root, attr)] = problem
+                out.setdefault("_fillers", {})[(root, attr)] = set(fillers)
+        fl = out.pop("_fillers", {})
+        # a stamp kept beside a memo (filled only where the memo is filled) shares its verdict
+        for k, prob in list(out.items()):
+            if prob is None:
+                continue
+            for k2, prob2 in out.items():
+                if k2 != k and prob2 is None and fl.get(k) and fl[k] <= fl.get(k2, set()):
+                    out[k] = None
+        return out
+    return ctx.get("memo_attrs", build)
+
+
+def _value_sources(prog, e):
+    """(root, attribute) pairs the value stored by effect e is computed from: self attributes
+    (and workflow_state attributes) read in the stored expression, in the definitions of the
+    locals it mentions (three hops) and in the methods of the own class it calls."""
+    f = e.func
+    own = "WS" if (f.cls is not None and f.cls.name == "WorkflowState") else "WC"
+    selfname = f.params[0] if f.params else "self"
+    v = assigned_value(e)
+    exprs = [v] if v is not None else []
+    if v is None and isinstance(e.node, ast.Call):
+        exprs = list(e.node.args)
+    elif v is None:
+        exprs = [e.node]
+    out, seen = set(), set()
+    work = list(exprs)
+    hops = 0
+    while work and hops < 40:
+        hops += 1
+        x = work.pop()
+        for n in ast.walk(x):
+            if isinstance(n, ast.Attribute):
+                if isinstance(n.value, ast.Name) and n.value.id == selfname:
+                    m = prog.lookup_method(f.cls, n.attr) if f.cls is not None else None
+                    if m is not None:
+                        if m.qualname not in seen:
+                            seen.add(m.qualname)
+                            for r in _transitive_self_reads(prog, f.cls, m, depth=2):
+                                out.add((own, r))
+                    else:
+                        out.add((own, n.attr))
+                elif isinstance(n.value, ast.Attribute) and n.value.attr in (
+                        "workflow_state", "_workflow_state"):
+                    out.add(("WS", n.attr))
+            elif isinstance(n, ast.Name) and n.id not in seen and n.id != selfname:
+                seen.add(n.id)
+                for d in ast.walk(f.node):
+                    if isinstance(d, ast.Assign) and any(
+                            isinstance(t, ast.Name) and t.id == n.id for t in d.targets):
+                        work.append(d.value)
+                    elif isinstance(d, ast.For) and any(
+                            isinstance(t, ast.Name) and t.id == n.id for t in ast.walk(d.target)):
+                        work.append(d.iter)
+    return {s_ for s_ in out if s_[1] not in ("workflow_state", "_workflow_state", "conductor")}
+
+
+def _is_memo_path(ctx, path):
+    m = memo_attrs(ctx)
+    return len(path) >= 2 and (path[0], path[1]) in m and m[(path[0], path[1])] is None
+
 
 def rule_F5(ctx):
     res = RuleResult("F5", "queries do not write persistent state (get_next_tasks: only the "
@@ -589,7 +740,7 @@ def rule_F5(ctx):
         if q not in a.entry_effects:
             continue  # renamed/removed query: nothing to check for it
         present += 1
-        effs = effects_of(ctx, q)
+        effs = [e for e in effects_of(ctx, q) if not _is_memo_path(ctx, e.path)]
         if not effs:
             res.holds((q,))
         for e in effs:
@@ -603,6 +754,8 @@ def rule_F5(ctx):
     f = ctx.prog.function(gq)
     fg = FuncGuards(ctx.prog, f)
     for e in effects_of(ctx, gq):
+        if _is_memo_path(ctx, e.path):
+            continue
         inst = (gq, dotted(e.path), e.op, e.func.qualname, norm_src(e.node))
         own = [a_ for q_, a_ in e.guards if q_ == e.func.qualname]
         if e.path[:3] == ("WS", "staged", "*") and e.path[3:] == ("items",) and e.op == "setitem":
@@ -739,6 +892,8 @@ def rule_F6(ctx, entries=("conducting.WorkflowConductor.request_workflow_status"
             bad = {}
             for e in effs:
                 top = e.stack[0][1] if e.stack else e.node
+                if _is_memo_path(ctx, e.path):
+                    continue
                 if not _may_precede(f, top, r):
                     continue
                 if any(e.path[:len(x)] == x for x in exempt_paths):
@@ -1255,8 +1410,20 @@ def rule_S1(ctx):
     des_sets = {e.path[1] for e in effects_of(ctx, des.qualname) if e.path[0] == "WS" and len(e.path) == 2}
     ser_keys = _dict_keys_written(ser)
     des_keys = _data_keys_read(des)
+    memo = memo_attrs(ctx)
     for attr in sorted(state_attrs):
         inst = ("WorkflowState", attr)
+        if ("WS", attr) in memo and attr not in ser_reads:
+            if memo[("WS", attr)] is None:
+                res.holds(inst, "derived cache: empty after construction, reset by every "
+                                "writer of what it is computed from")
+            else:
+                res.violated(inst, Finding(
+                    "S1", ser.file, ser.qualname, "attribute %s" % attr,
+                    "run-time attribute %s is not persisted and can go stale: a live conductor "
+                    "and one restored from its persisted form then disagree"
+                    % memo[("WS", attr)], line=ser.node.lineno))
+            continue
         if attr not in ser_reads:
             res.violated(inst, Finding(
                 "S1", ser.file, ser.qualname, "attribute %s" % attr,
@@ -1298,6 +1465,17 @@ def rule_S1(ctx):
         e.path == ("WS",) for e in effects_of(ctx, cdes.qualname)) else set()
     for attr in sorted(runtime):
         inst = ("WorkflowConductor", attr)
+        if ("WC", attr) in memo and attr not in cser_reads:
+            if memo[("WC", attr)] is None:
+                res.holds(inst, "derived cache: empty after construction, reset by every "
+                                "writer of what it is computed from")
+            else:
+                res.violated(inst, Finding(
+                    "S1", cser.file, cser.qualname, "attribute %s" % attr,
+                    "run-time attribute %s is not persisted and can go stale: a live conductor "
+                    "and one restored from its persisted form then disagree"
+                    % memo[("WC", attr)], line=cser.node.lineno))
+            continue
         if attr not in cser_reads:
             res.violated(inst, Finding(
                 "S1", cser.file, cser.qualname, "attribute %s" % attr,
